@@ -386,6 +386,17 @@ Theorem C01_partition_linked : forall (cs : list C11.EndToEnd.card) rk,
 Proof. exact partition_linked. Qed.
 Print Assumptions C01_partition_linked.
 
+(* non-vacuity of the link: the table C11_example_deck computes for the deck
+   "1 0 -1 2 imp:n=1" / "2 3 -2.7 #1:3" meets the side conditions, converts and
+   prunes; both cells are written *)
+Example C01_example_linked :
+  (forall n c', C11.Model.lookup exl_tbl n = Some c' -> a_known exl_matching (C11.Model.c_geom c') = true) /\
+  (forall k ids, lookup k exl_matching = Some ids -> Forall (fun x => x <> 0) ids) /\
+  exists s' d', convert_cells 3 (cells_of exl_tbl) exl_matching 5 6 [1; 2] (mkSt 2 [] [] []) = Ok s' /\
+                prune 5 6 None (vols s') = Ok d' /\
+                map fst (filter (fun kv => negb (v_fict (snd kv))) (written [] d')) = [1; 2].
+Proof. exact exl_ok. Qed.
+
 (* non-vacuity: five cells (three converted, one of importance 0, one filler kept
    by reference), a union without pure-intersection member, a surface of
    reversed side; every hypothesis of C01_cells / C01_partition holds, with a
